@@ -587,6 +587,22 @@ def py_extract(d, comp, drv):
     return [sorted(classes, key=lambda c: c[0]), sorted(groups, key=lambda g: g[0])]
 
 
+def py_definable(schema):
+    """can every define_class / define_association call for this (canonical) schema succeed: class names distinct
+    when upper-cased, both classes of every association defined, every target key an attribute of the target"""
+    kls = [c[0].upper() for c in schema[0]]
+    if len(set(kls)) != len(kls):
+        return False
+    attrs = {c[0].upper(): {a[0].upper() for a in c[1]} for c in schema[0]}
+    for g in schema[1]:
+        for src, tgt in g[1]:
+            if src[0].upper() not in attrs or tgt[0].upper() not in attrs:
+                return False
+            if any(k.upper() not in attrs[tgt[0].upper()] for k in tgt[1]):
+                return False
+    return True
+
+
 def _relkey(x):
     return (0, x, '') if isinstance(x, int) else (1, 0, str(x))
 
@@ -792,7 +808,7 @@ def gen_diagram(rng, max_classes=5, special_names=False):
         counter[0] += 1
         return counter[0]
 
-    special = ['a&b', 'x<y', 'q"t', "o'k", 'p>q', 'Ünï', 'sp ace'] if special_names else []
+    special = ['a&b', 'x<y', 'q"t', "o'k", 'p>q', 'Ünï', 'sp ace', '&amp;', ']]>', '&#10;'] if special_names else []
     d = {'containers': [], 'dts': predefined_dts(), 'classes': [], 'rels': []}
     # containers
     d['containers'].append({'comp': False, 'id': nid(), 'name': 'Top', 'parent': None})
@@ -1037,6 +1053,44 @@ def _node(tag, attrs, children):
 
 def py_xsd(d, comp):
     """the XSD tree for component id `comp`, canonical (see canon_xml)"""
+    return canon_xml(py_xsd_tree(d, comp))
+
+
+def _esc_attr(v):
+    for a, b in (('&', '&amp;'), ('<', '&lt;'), ('>', '&gt;'), ('"', '&quot;')):
+        v = v.replace(a, b)
+    return v
+
+
+def py_file_text(tree, attr_order):
+    """the text of the pretty-printed file for a tree in document order: one element per line, four blanks per
+    level, attributes in the order `attr_order(tag)`, values with the four replacements of minidom"""
+    out = ['<?xml version="1.0" ?>\n']
+
+    def node(t, ind):
+        tag, attrs, children = t
+        a = dict((k, v) for k, v in attrs)
+        out.append(ind + '<' + tag + ''.join(' %s="%s"' % (k, _esc_attr(a[k])) for k in attr_order(tag) if k in a))
+        if not children:
+            out.append('/>\n')
+        else:
+            out.append('>\n')
+            for c in children:
+                node(c, ind + '    ')
+            out.append(ind + '</' + tag + '>\n')
+
+    node(tree, '')
+    return ''.join(out)
+
+
+XSD_ATTR_ORDER = {'xs:schema': ['xmlns:xs'], 'xs:simpleType': ['name'], 'xs:restriction': ['base'],
+                  'xs:enumeration': ['value'], 'xs:element': ['name', 'minOccurs', 'maxOccurs'],
+                  'xs:attribute': ['name', 'type']}
+
+
+def py_xsd_tree(d, comp):
+    """the XSD tree in document order: types as the S_DT rows are listed (global ones first), classes and
+    attributes in modeled order"""
     types = []
     for scope in (lambda t: py_global(d, t['parent']), lambda t: py_contained(d, comp, t['parent'])):
         for t in d['dts']:
@@ -1071,7 +1125,7 @@ def py_xsd(d, comp):
                              [_node('xs:complexType', [], attrs)]))
     name = next((k['name'] for k in d['containers'] if k['comp'] and k['id'] == comp), '')
     component = _node('xs:element', [('name', name)], [_node('xs:complexType', [], [_node('xs:sequence', [], classes)])])
-    return canon_xml(_node('xs:schema', [('xmlns:xs', XS_NS)], types + [component]))
+    return _node('xs:schema', [('xmlns:xs', XS_NS)], types + [component])
 
 
 def canon_xml(t):
